@@ -8,7 +8,7 @@ usage: mutants.py [name ...]      (default: all)
 import json, os, re, shutil, subprocess, sys, time
 
 VERIF = os.path.dirname(os.path.dirname(os.path.abspath(__file__)))
-WORK = "/tmp/mut"
+WORK = os.environ.get("MUT_WORK", "/tmp/mut")
 
 # name: (props to run, file, old, new)
 M = {
